@@ -459,3 +459,52 @@ theorem layouts_fill_headers :
     all.all (fun s => s.totalBits == 8 * s.headerLen && s.headerLen % 4 == 0) = true := by decide
 
 end O1722.Spec
+
+namespace O1722.Spec
+
+/-! ### fields that several formats share (C17) -/
+
+/-- (view A, view B, [(enumerator suffix in A, enumerator suffix in B)]) -/
+structure SharedView where
+  a : FormatSpec
+  b : FormatSpec
+  pairs : List (String × String)
+
+def sameNames (ns : List String) : List (String × String) := ns.map (fun n => (n, n))
+
+def streamCommon : List String :=
+  ["SUBTYPE", "SV", "VERSION", "MR", "TV", "SEQUENCE_NUM", "TU", "STREAM_ID", "AVTP_TIMESTAMP",
+   "STREAM_DATA_LENGTH"]
+
+/-- The views the standard lets a receiver switch between. -/
+def sharedViews : List SharedView :=
+  -- AVTPDU common header in every stream format (sv plays the role of h)
+  ([tscf, ntscf, aaf, pcm, cvf, crf, rvf].map (fun s =>
+      ⟨commonHeader, s, [("SUBTYPE", "SUBTYPE"), ("H", "SV"), ("VERSION", "VERSION")]⟩))
+  -- ACF common header in every ACF message
+  ++ ([flexRay, can, canBrief, lin, most, gpc, sensor, sensorBrief, vss, vssBrief].map (fun s =>
+      ⟨acfCommon, s, sameNames ["ACF_MSG_TYPE", "ACF_MSG_LENGTH"]⟩))
+  -- the stream fields common to TSCF, AAF, AAF-PCM, CVF and RVF
+  ++ [⟨tscf, aaf, sameNames streamCommon⟩, ⟨tscf, pcm, sameNames streamCommon⟩,
+      ⟨tscf, cvf, sameNames streamCommon⟩, ⟨tscf, rvf, sameNames streamCommon⟩,
+      ⟨aaf, cvf, sameNames streamCommon⟩, ⟨pcm, rvf, sameNames streamCommon⟩,
+      ⟨cvf, rvf, sameNames (streamCommon ++ ["RESERVED", "RESERVED_2", "EVT"])⟩]
+  -- AAF versus AAF-PCM
+  ++ [⟨aaf, pcm, sameNames (streamCommon ++ ["FORMAT", "SP", "EVT"])⟩]
+
+/-- A pair of fields, one per view, designating the same wire bits. -/
+def viewPairs (v : SharedView) : List (Option (FieldSpec × FieldSpec)) :=
+  v.pairs.map (fun (x, y) =>
+    match v.a.fieldNamed x, v.b.fieldNamed y with
+    | some fa, some fb => some (fa, fb)
+    | _, _ => none)
+
+/-- Spec self-consistency for C17: every shared pair exists in both layouts and occupies
+    the same bit range in both. -/
+theorem shared_views_agree :
+    sharedViews.all (fun v => (viewPairs v).all (fun p =>
+      match p with
+      | some (fa, fb) => fa.first == fb.first && fa.width == fb.width
+      | none => false)) = true := by decide
+
+end O1722.Spec
